@@ -92,6 +92,18 @@ func ReactScenarios() []History {
 	)
 	add("siblings-due-in-one-block", smallParams(), map[string]int64{"c2": 20}, ops...)
 
+	// a module that registered a response callback only, and one that registered nothing, ask for a context
+	ops = registry(map[string]int64{"p1": 5, "p2": 3})
+	ops = append(ops,
+		Ev{Name: "ModCreate", Module: ModNameRespOnly, Signer: "c1", Svc: "s1", Provs: both, Cap: 10, Timeout: 2, Rep: true, Freq: 2, Total: 3, Thr: 1},
+		Ev{Name: "ModCreate", Module: ModNameNone, Signer: "c1", Svc: "s1", Provs: both, Cap: 10, Timeout: 2, Thr: 1},
+		Ev{Name: "ModCreate", Module: ModNameRespOnly, Signer: "c2", Svc: "s1", Provs: both, Cap: 10, Timeout: 2, Rep: true, Freq: 2, Total: 3, Thr: 1},
+		eb(1),
+		Ev{Name: "BankSend", Signer: "c2", To: "o2", Amount: 99},
+		eb(1), eb(1), eb(1), eb(1),
+	)
+	add("modules-without-their-callbacks", smallParams(), nil, ops...)
+
 	return hs
 }
 
